@@ -170,32 +170,50 @@ class Plumbing:
 
     # ------------------------------------------------------------------ stage b
     def save_effects(self) -> list[FileEffect]:
-        f = self.save
-        env = single_assignment_env(f.node)
-        withs = _with_files(f, env)
+        """Ordered file effects of save_calibrator_state, helpers of the same module inlined at their call site."""
         effects: list[FileEffect] = []
-        order = 0
+        self._effects_of(self.save, single_assignment_env(self.save.node), effects, "", 0)
+        for i, e in enumerate(effects):
+            e.order = i
+        return effects
+
+    def _effects_of(self, f: FuncInfo, env: dict[str, ast.expr], effects: list[FileEffect], outer_cond: str, depth: int) -> None:
         for n in _preorder(f.node):
             if not isinstance(n, ast.Call):
                 continue
             q = self.prog.qualify(f.module, dotted(n.func) or "")
+            cond = " and ".join(x for x in (outer_cond, _guards(n, f.node)) if x)
             if q in ("json.dump", "pickle.dump") and len(n.args) >= 2 and isinstance(n.args[1], ast.Name) and _enclosing_file(n, n.args[1].id, env):
                 file, mode, stmt = _enclosing_file(n, n.args[1].id, env)  # type: ignore[misc]
-                effects.append(FileEffect(order, file, q, mode, n, n.args[0], _guards(n, f.node)))
-                order += 1
+                effects.append(FileEffect(0, file, q, mode, n, n.args[0], cond))
             elif isinstance(n.func, ast.Attribute) and n.func.attr == "to_csv":
                 file = path_file(n.args[0] if n.args else kwarg(n, "path_or_buf"), env)
-                effects.append(FileEffect(order, file or "?", "to_csv", "w", n, n.func.value, _guards(n, f.node)))
-                order += 1
+                effects.append(FileEffect(0, file or "?", "to_csv", "w", n, n.func.value, cond))
             elif q == "h5py.File":
                 file = path_file(n.args[0] if n.args else None, env)
                 mode = kwarg(n, "mode", 1)
-                effects.append(FileEffect(order, file or "?", "h5py.File", mode.value if isinstance(mode, ast.Constant) else "r", n, None, _guards(n, f.node)))
-                order += 1
-            elif isinstance(n.func, ast.Attribute) and n.func.attr in ("write", "write_text", "write_bytes"):
-                effects.append(FileEffect(order, path_file(n.func.value, env) or "?", "write", "w", n, n.args[0] if n.args else None, _guards(n, f.node)))
-                order += 1
-        return effects
+                effects.append(FileEffect(0, file or "?", "h5py.File", mode.value if isinstance(mode, ast.Constant) else "r", n, None, cond))
+            elif isinstance(n.func, ast.Attribute) and n.func.attr in ("write", "write_text", "write_bytes") and path_file(n.func.value, env):
+                effects.append(FileEffect(0, path_file(n.func.value, env) or "?", "write", "w", n, n.args[0] if n.args else None, cond))
+            elif q in ("os.replace", "os.rename", "shutil.move") or (isinstance(n.func, ast.Attribute) and n.func.attr in ("replace", "rename") and path_file(n.func.value, env)):
+                dst = n.args[-1] if n.args else None
+                effects.append(FileEffect(0, path_file(dst, env) or "?", "rename", "w", n, None, cond))
+            elif depth < 3:
+                targets = [t for t in self.prog.resolve_call(f, n) if isinstance(t, FuncInfo) and t.module is f.module and t is not f and t.name != "__init__"]
+                for t in targets:
+                    cenv = dict(env)
+                    cenv.update(single_assignment_env(t.node))
+                    for i, a in enumerate(n.args):
+                        if i < len(t.bound_params):
+                            cenv[t.bound_params[i]] = a if not (isinstance(a, ast.Name) and a.id in env) else env[a.id]
+                    for k in n.keywords:
+                        if k.arg:
+                            cenv[k.arg] = k.value if not (isinstance(k.value, ast.Name) and k.value.id in env) else env[k.value.id]
+                    sub: list[FileEffect] = []
+                    self._effects_of(t, cenv, sub, cond, depth + 1)
+                    for e in sub:
+                        e.node_in_save = n  # type: ignore[attr-defined]
+                    effects.extend(sub)
 
     def save_storage(self) -> dict[str, list[Storage]]:
         """save parameter -> where its value is stored."""
